@@ -88,8 +88,24 @@ struct Emitter {
   }
 
   std::string clsName(const CXXRecordDecl *RD) {
-    if (isa<ClassTemplateSpecializationDecl>(RD) && !RD->isDependentContext())
-      return ty(Ctx.getTypeDeclType(RD));
+    if (auto *SD = dyn_cast<ClassTemplateSpecializationDecl>(RD)) {
+      if (!RD->isDependentContext()) {
+        // canonical template arguments (an explicit instantiation would otherwise print them as written)
+        std::string s;
+        if (auto *P = dyn_cast<CXXRecordDecl>(RD->getDeclContext())) s = clsName(P) + "::" + RD->getNameAsString();
+        else s = qname(RD);
+        llvm::raw_string_ostream os(s);
+        os << "<";
+        auto &TA = SD->getTemplateArgs();
+        for (unsigned i = 0; i < TA.size(); ++i) {
+          if (i) os << ", ";
+          if (TA[i].getKind() == TemplateArgument::Type) os << ty(TA[i].getAsType());
+          else TA[i].print(PP, os, true);
+        }
+        os << ">";
+        return os.str();
+      }
+    }
     return qname(RD);
   }
 
